@@ -90,7 +90,16 @@ def lean_errors(out):
 def audit(pid):
     """run Audit/<pid>.lean: returns dict theorem -> list of axioms, plus raw text.
     Also checks every `theorem` of Props/<pid>.lean is audited and greps for forbidden tokens."""
+    src = open(os.path.join(LEAN, "EbisimProofs", "Props", f"{pid}.lean")).read()
+    ns = re.search(r"^namespace (\S+)", src, re.M)
+    ns = ns.group(1) + "." if ns else ""
+    declared = [ns + m.group(1) for m in re.finditer(r"^theorem (\S+)", src, re.M)]
+    # the audit file lists every theorem of the property file (regenerated, so none can be skipped)
     f = os.path.join("EbisimProofs", "Audit", f"{pid}.lean")
+    txt = f"import EbisimProofs.Props.{pid}\n" + "".join(f"#print axioms {d}\n" for d in declared)
+    fp = os.path.join(LEAN, f)
+    if not os.path.exists(fp) or open(fp).read() != txt:
+        open(fp, "w").write(txt)
     rc, out, dt = run(["lake", "env", "lean", f], cwd=LEAN, timeout=1200)
     res = {}
     for m in re.finditer(r"'([^']+)' depends on axioms: \[([^\]]*)\]", out.replace("\n ", " ").replace("\n", " ")):
@@ -100,11 +109,6 @@ def audit(pid):
     problems = []
     if rc != 0:
         problems.append("audit file failed: " + "; ".join(lean_errors(out))[:600])
-    # every theorem of the property file must be audited
-    src = open(os.path.join(LEAN, "EbisimProofs", "Props", f"{pid}.lean")).read()
-    ns = re.search(r"^namespace (\S+)", src, re.M)
-    ns = ns.group(1) + "." if ns else ""
-    declared = [ns + m.group(1) for m in re.finditer(r"^theorem (\S+)", src, re.M)]
     for d in declared:
         if d not in res:
             problems.append(f"theorem {d} is not audited")
@@ -218,7 +222,8 @@ def compare(a, b, rtol=1e-11, scale=None):
     den = np.maximum(np.abs(a), np.abs(b))
     if scale is not None:
         den = den + np.abs(np.asarray(scale, dtype=float))
-    err = np.where(fin & (den > 0), np.abs(a - b) / np.where(den > 0, den, 1), 0.0)
+    with np.errstate(all="ignore"):
+        err = np.where(fin & (den > 0), np.abs(a - b) / np.where(den > 0, den, 1), 0.0)
     err = np.where(nan_mis | inf_mis, np.inf, err)
     i = int(np.argmax(err))
     w = float(err.ravel()[i])
